@@ -172,6 +172,22 @@ class BadRepr:
     __str__ = __repr__
 
 
+class AnswersEverything:
+    """Not a child value: it has no tagify / _repr_html_ of its own, it merely answers every attribute name dynamically."""
+
+    def __getattr__(self, name):
+        if name.startswith("__"):
+            raise AttributeError(name)
+        return lambda *a, **kw: "<i>made up on the spot</i>"
+
+
+class NoRichRepr:
+    """Not a child value: `_repr_html_ = None` / `tagify = None` say "I have no such thing"."""
+
+    _repr_html_ = None
+    tagify = None
+
+
 class ResourceMeta(ht.MetadataNode):
     """A user's metadata node that holds things which can be shared but not duplicated (a lock, a generator, a module)."""
 
@@ -459,6 +475,7 @@ def _build(r):
                 "bytearray": lambda: bytearray(b"ab"), "memoryview": lambda: memoryview(b"ab"), "frozenset": lambda: frozenset([1]),
                 "generator": lambda: (x for x in ("g1", "g2")), "iterator": lambda: iter(["i1", "i2"]), "map": lambda: map(str, [1, 2]),
                 "dictkeys": lambda: {"k1": 1}.keys(), "dictitems": lambda: {"k1": 1}.items(), "enumerate": lambda: enumerate(["e"]),
+                "answers_everything": AnswersEverything, "no_rich_repr": NoRichRepr,
                 "badrepr": BadRepr, "tagfunction": lambda: ht.tags.hr, "listclass": lambda: ht.TagList, "boundmethod": lambda: ht.div().append, "strclass": lambda: str,
                 "function": lambda: (lambda: "x"), "exception": lambda: ValueError("v"), "module": lambda: __import__("json")}[t]()
     raise ValueError(k)
